@@ -1,4 +1,5 @@
 import OV.Model.C01Convert
+import OV.Model.C01Env
 /-
   OV.Model.C01SExp — S-expression wire format between the harness and the C01/C02 driver:
   programs in, graphs out (and graphs in, for the verified well-formedness check run on the
@@ -200,6 +201,26 @@ def decFunc : SExp → Option Func
     let ss' ← decStmts ss
     some { name := name, params := ps', retCount := r.toNat?, body := ss' }
   | _ => none
+
+/-- `(k <literal>)` entries of an environment section. -/
+def decEnvEntries (xs : List SExp) : Option (List (Name × Lit)) :=
+  xs.mapM (fun x =>
+    match x with
+    | .list [.atom k, v] =>
+      (match decExpr v with
+       | some (.lit l) => some (k, l)
+       | _ => none)
+    | _ => none)
+
+/-- A program as the harness sends it: `<func>` or `(withenv (closure E*) (globals E*) <func>)`; the result is
+the function with its free names resolved (`resolveEnv`). -/
+def decProgram : SExp → Option Func
+  | .list [.atom "withenv", .list (.atom "closure" :: cs), .list (.atom "globals" :: gs), f] => do
+    let cs' ← decEnvEntries cs
+    let gs' ← decEnvEntries gs
+    let f' ← decFunc f
+    some (resolveEnv cs' gs' f')
+  | e => decFunc e
 
 /-! ## Encoding / decoding graphs -/
 
